@@ -12,6 +12,7 @@ package main
 
 import (
 	"bytes"
+	"context"
 	"encoding/hex"
 	"encoding/json"
 	"errors"
@@ -23,19 +24,24 @@ import (
 	"strconv"
 	"strings"
 
+	"github.com/aergoio/aergo-actor/actor"
 	"github.com/aergoio/aergo-lib/db"
 	"github.com/aergoio/aergo/v2/account/key"
 	crypto "github.com/aergoio/aergo/v2/account/key/crypto"
 	"github.com/aergoio/aergo/v2/chain"
 	"github.com/aergoio/aergo/v2/consensus"
+	"github.com/aergoio/aergo/v2/consensus/impl/raftv2"
+	"github.com/aergoio/aergo/v2/contract"
 	"github.com/aergoio/aergo/v2/contract/enterprise"
 	"github.com/aergoio/aergo/v2/contract/name"
 	"github.com/aergoio/aergo/v2/contract/system"
+	"github.com/aergoio/aergo/v2/fee"
 	"github.com/aergoio/aergo/v2/internal/common"
 	"github.com/aergoio/aergo/v2/internal/enc/base58"
 	"github.com/aergoio/aergo/v2/internal/enc/base64"
 	"github.com/aergoio/aergo/v2/internal/enc/proto"
 	"github.com/aergoio/aergo/v2/mempool"
+	"github.com/aergoio/aergo/v2/pkg/component"
 	"github.com/aergoio/aergo/v2/state"
 	"github.com/aergoio/aergo/v2/state/statedb"
 	"github.com/aergoio/aergo/v2/types"
@@ -246,6 +252,7 @@ var sentinel = []struct {
 	{types.ErrInsufficientBalance, "balance"}, {types.ErrTooSmallAmount, "state"}, {types.ErrLessTimeHasPassed, "state"},
 	{types.ErrMustStakeBeforeVote, "state"}, {types.ErrMustStakeBeforeUnstake, "state"}, {types.ErrExceedAmount, "state"},
 	{enterprise.ErrTxEnterpriseAdminIsNotSet, "state"}, {enterprise.ErrNotSupportedMethod, "unsupported"},
+	{types.ErrNotAllowedFeeDelegation, "fd"}, {actor.ErrTimeout, "internal"},
 }
 
 var prefixes = []struct{ p, cls string }{
@@ -262,6 +269,7 @@ var prefixes = []struct{ p, cls string }{
 	{"already exist admin", "state"}, {"admins is not exist", "state"}, {"admin is in the account whitelist", "state"},
 	{"admin address not matched", "state"}, {"could not get admin", "state"}, {"already included config value", "state"},
 	{"value not exist", "state"}, {"the values of", "state"},
+	{"the minimum required amount of gas", "fee"}, {"cannot find contract", "fd"}, {"fee delegation is not allowed", "fd"},
 }
 
 func classify(err error) string {
@@ -304,6 +312,11 @@ type world struct {
 	fv      int32
 	mp      *mempool.MemPool
 	setup   []string // committed transactions so far (for replays)
+	zeroFee bool     // fee.EnableZeroFee() (what a node without fee configuration... the repo's tests) or the real fee
+	hub     *component.ComponentHub
+	fdMode  string // how the chain-service component of the hub answers CheckFeeDelegation: typed, timeout, none
+	raft    *raftv2.BlockFactory
+	flags   [2]bool // the pool's cfg.Mempool.BlockMulticall / BlockDeploy
 }
 
 var aergo = big.NewInt(1e18)
@@ -311,7 +324,7 @@ var aergo = big.NewInt(1e18)
 func coins(n int64) *big.Int { return new(big.Int).Mul(big.NewInt(n), aergo) }
 
 func newWorld(run *vh.Run, dir string, public bool) *world {
-	w := &world{run: run, public: public, blockNo: 10, fv: 3}
+	w := &world{run: run, public: public, blockNo: 10, fv: 3, zeroFee: true, fdMode: "typed"}
 	w.sdb = state.NewChainStateDB()
 	if err := w.sdb.Init(string(db.MemoryImpl), dir, nil, false, nil); err != nil {
 		panic(err)
@@ -325,7 +338,7 @@ func newWorld(run *vh.Run, dir string, public bool) *world {
 	cid, _ := g.ID.Bytes()
 	w.chainID = cid
 	seed := vh.NewRng(7) // fixed accounts: the same in every run, so replays name them by index
-	for i := 0; i < 4; i++ {
+	for i := 0; i < 5; i++ {
 		k, _ := btcec.PrivKeyFromBytes(seed.Bytes(32))
 		w.keys = append(w.keys, k)
 		w.addrs = append(w.addrs, crypto.GenerateAddress(k.PubKey().ToECDSA()))
@@ -336,12 +349,18 @@ func newWorld(run *vh.Run, dir string, public bool) *world {
 		panic(err)
 	}
 	system.InitSystemParams(scs, 3)
+	if err := system.InitVotingPowerRank(scs); err != nil {
+		panic(err)
+	}
 	for i, a := range w.addrs {
 		as, _ := state.GetAccountState(a, bs.StateDB)
-		if i < 3 {
+		switch {
+		case i < 3:
 			as.AddBalance(coins(1000000))
-		} else {
+		case i == 3:
 			as.AddBalance(big.NewInt(5)) // a poor account
+		default:
+			as.AddBalance(big.NewInt(5000)) // 5000 aer: can stake only once the staking minimum was voted down
 		}
 		as.PutState()
 	}
@@ -364,6 +383,22 @@ func (w *world) commit(bs *state.BlockState) {
 		panic(err)
 	}
 	w.mp = nil
+	// what the consensus does when the block is connected: parameter changes voted in it come into force
+	system.CommitParams(true)
+}
+
+// reload: a block that is not connected leaves no trace: the process-wide system parameters and the voting-power
+// rank are rebuilt from the committed state (what the chain does on a reorganisation / restart).
+func (w *world) reload() {
+	sdb := w.sdb.OpenNewStateDB(w.sdb.GetRoot())
+	scs, err := statedb.GetSystemAccountState(sdb)
+	if err != nil {
+		panic(err)
+	}
+	system.InitSystemParams(scs, 3)
+	if err := system.InitVotingPowerRank(scs); err != nil {
+		panic(err)
+	}
 }
 
 func (w *world) chainIdHash() []byte { return common.Hasher(types.MakeChainId(w.chainID, w.fv)) }
@@ -371,9 +406,28 @@ func (w *world) chainIdHash() []byte { return common.Hasher(types.MakeChainId(w.
 func (w *world) pool() *mempool.MemPool {
 	if w.mp == nil {
 		w.mp = mempool.VerifC14New(w.sdb.OpenNewStateDB(w.sdb.GetRoot()), w.public)
+		if w.hub == nil {
+			w.hub = newHub(w)
+		}
 	}
 	w.mp.VerifC14SetBest(w.blockNo-1, w.fv, w.chainIdHash())
+	if w.fdMode == "none" {
+		w.mp.SetHub(component.NewComponentHub()) // a hub without a chain service
+	} else {
+		w.mp.SetHub(w.hub)
+	}
+	w.mp.VerifC14SetFlags(w.flags[0], w.flags[1])
+	// NewMemPoolService(cfg, nil) switches the fee off process-wide: restore this world's setting
+	w.applyFee()
 	return w.mp
+}
+
+func (w *world) applyFee() {
+	if w.zeroFee {
+		fee.EnableZeroFee()
+	} else {
+		fee.DisableZeroFee()
+	}
 }
 
 // cfg: node configuration of a case
@@ -385,6 +439,36 @@ func (w *world) applyCfg(c nodeCfg) {
 	types.InitGovernance(c.consensus, w.public)
 	consensus.SetCurConsensus(c.consensus)
 	chain.VerifC14SetPublic(w.public)
+	w.applyFee()
+}
+
+// ccc: what executes an admitted changeCluster request: on a raft network the real raft block factory's
+// MakeConfChangeProposal on a three-member cluster whose leader this node is; elsewhere nothing is asked.
+func (w *world) ccc(cons string) consensus.ChainConsensusCluster {
+	if cons != "raft" {
+		return stubCcc{}
+	}
+	if w.raft == nil {
+		var ms []*consensus.Member
+		for i, pid := range []string{"16Uiu2HAmPZE7gT1hF2bjpg1UVH65xyNUbBVRf3mBFBJpz3tgLGGt", "16Uiu2HAmGiJ2QgVAWHMUtzLKKNM5eFUJ3Ds3FN7nYJq1mHN5ZPj9", "16Uiu2HAm4xYtGsqk7WGKUxrGmRjB9mPDoxBsLEZPHKU7WRGLnTGa"} {
+			id, err := types.IDB58Decode(pid)
+			if err != nil {
+				continue
+			}
+			ms = append(ms, consensus.NewMember(fmt.Sprintf("n%d", i+1), fmt.Sprintf("/ip4/127.0.0.1/tcp/%d", 7801+i), id, w.chainID, int64(i+1)))
+		}
+		cl, err := raftv2.VerifNewCluster(ms, nil, uint64(ms[0].ID))
+		if err != nil {
+			panic(err)
+		}
+		var prog []raftv2.VerifProgress
+		for _, m := range ms {
+			prog = append(prog, raftv2.VerifProgress{ID: uint64(m.ID), State: 1, Match: 10})
+		}
+		cl.VerifSetRaft(true, uint64(ms[0].ID), true, 10, prog)
+		w.raft = raftv2.VerifC14Factory(cl)
+	}
+	return w.raft
 }
 
 type stubCcc struct{}
@@ -403,6 +487,7 @@ type txCase struct {
 	price     *big.Int
 	typ       types.TxType
 	payload   []byte
+	gasLimit  uint64
 	nonceOff  int64 // tx nonce = state nonce + 1 + nonceOff
 	badSig    bool
 	badHash   bool
@@ -439,7 +524,7 @@ func (w *world) build(c *txCase) (*types.Tx, uint64) {
 	}
 	tx := &types.Tx{Body: &types.TxBody{
 		Nonce: uint64(n), Account: acc, Recipient: c.rcpt, Amount: amt.Bytes(), GasPrice: price.Bytes(),
-		Payload: c.payload, Type: c.typ, ChainIdHash: w.chainIdHash(),
+		Payload: c.payload, Type: c.typ, ChainIdHash: w.chainIdHash(), GasLimit: c.gasLimit,
 	}}
 	if c.badChain {
 		tx.Body.ChainIdHash = []byte("not the chain")
@@ -536,6 +621,23 @@ func (w *world) facts(tx *types.Tx, stNonce uint64, cons string) string {
 		}
 	}
 	kv("bal", bal.String())
+	kv("zf", b01(w.zeroFee))
+	kv("gp", system.GetGasPrice().String())
+	kv("gl", strconv.FormatUint(body.GasLimit, 10))
+	kv("bm", b01(w.flags[0]))
+	kv("bd", b01(w.flags[1]))
+	// the pool's view of the recipient: name.GetAddress on the name contract; the fee-delegation payer's balance
+	rcptAddr := body.Recipient
+	if r := body.Recipient; len(r) > 0 && len(r) != types.AddressLength && !types.IsSpecialAccount(r) {
+		rcptAddr = w.resolve(r)
+		kv("rres", b01(rcptAddr != nil))
+	}
+	if body.Type == types.TxType_FEEDELEGATION && len(rcptAddr) > 0 {
+		if as, err := state.GetAccountState(rcptAddr, sdb); err == nil {
+			kv("rbal", as.Balance().String())
+		}
+		kv("fd", w.fdFact(rcptAddr, tx))
+	}
 
 	var ci types.CallInfo
 	jsonOK := json.Unmarshal(body.Payload, &ci) == nil
@@ -611,6 +713,31 @@ func (w *world) facts(tx *types.Tx, stNonce uint64, cons string) string {
 			}
 		}
 		kv("cap", strconv.Itoa(cap(cbuf)))
+		// parameter votes: the staking total and the tally of every issue, in stored order, with the candidates of
+		// the sender's old record flagged
+		if tot, err := system.GetStakingTotal(scs); err == nil && tot != nil {
+			kv("stot", tot.String())
+		}
+		for i, is := range issues[1:] {
+			vl, err := system.GetVoteResult(scs, []byte(is), 1<<30)
+			if err != nil || vl == nil || len(vl.Votes) == 0 {
+				continue
+			}
+			old := map[string]bool{}
+			if v, err := system.GetVote(scs, sender, []byte(is)); err == nil && v != nil && v.Candidate != nil {
+				var cs []string
+				if json.Unmarshal(v.Candidate, &cs) == nil {
+					for _, c := range cs {
+						old[c] = true
+					}
+				}
+			}
+			var rows []string
+			for _, r := range vl.Votes {
+				rows = append(rows, hx(r.Candidate)+":"+r.GetAmountBigInt().String()+":"+b01(old[string(r.Candidate)]))
+			}
+			kv("tal"+strconv.Itoa(i+1), strings.Join(rows, ","))
+		}
 	case types.AergoName:
 		scs, _ := statedb.GetNameAccountState(sdb)
 		kv("nprice", system.GetNamePrice().String())
@@ -762,21 +889,41 @@ func (w *world) runCase(c *txCase, commit bool) (admit, exec string) {
 	}
 	op += " chain=" + b01(!c.badChain) + " hash=" + b01(!c.badHash) + " sig=" + b01(sigOK) + " size=" + b01(proto.Size(tx) <= types.TxMaxSize)
 
-	// execution in the next block
-	bs := w.sdb.NewBlockState(w.sdb.GetRoot())
-	bi := &types.BlockHeaderInfo{No: w.blockNo, ForkVersion: w.fv, ChainId: types.MakeChainId(w.chainID, w.fv)}
-	txe := types.NewTransaction(tx)
-	if txi.HasVerifedAccount() {
-		txe.SetVerifedAccount(txi.GetVerifedAccount())
+	// execution in the next block: the real TxExecutor of the chain service (validators) and of the block factory
+	// (producers), each on its own block state; nothing is connected, so the process-wide parameters / rank are rebuilt
+	exec1 := func(mode int) (result, *state.BlockState) {
+		bs := w.sdb.NewBlockState(w.sdb.GetRoot(), state.SetGasPrice(system.GetGasPrice()))
+		bi := &types.BlockHeaderInfo{No: w.blockNo, ForkVersion: w.fv, ChainId: types.MakeChainId(w.chainID, w.fv)}
+		txe := types.NewTransaction(tx)
+		if txi.HasVerifedAccount() {
+			txe.SetVerifedAccount(txi.GetVerifedAccount())
+		}
+		ex := chain.NewTxExecutor(context.Background(), w.ccc(c.cons), nil, bi, mode)
+		return guard(func() error { return ex(bs, txe) }), bs
 	}
-	er := guard(func() error { return chain.VerifC14ExecuteTx(stubCcc{}, bs, txe, bi) })
+	erF, _ := exec1(contract.BlockFactory)
+	w.reload()
+	er, bs := exec1(contract.ChainService)
 	exec = "done"
 	if er.panicked {
 		exec = "panic:" + er.site
 	}
+	if erF.panicked != er.panicked || (er.panicked && erF.site != er.site) {
+		run.Fail("the block factory's executor and the chain service's executor differ on the same transaction and state: "+outName(erF)+" vs "+outName(er),
+			replay{World: w.worldName(), Setup: append([]string{}, w.setup...), BlockNo: w.blockNo, Fork: w.fv, Cons: c.cons, Signer: c.who,
+				Rcpt: string(c.rcpt), Type: tx.Body.Type.String(), Payload: string(c.payload), Stage: "execution", Panic: erF.msg + " / " + er.msg, Site: erF.site + " / " + er.site})
+	}
 	nontrivial := admit == "ok" || strings.HasPrefix(admit, "panic") || strings.HasPrefix(exec, "panic")
 	run.Op(op, "adm="+admit+" exec="+exec, nontrivial)
-	run.Count("tx:" + string(c.rcpt))
+	if tx.Body.Type == types.TxType_GOVERNANCE {
+		run.Count("tx:" + string(c.rcpt))
+	} else {
+		run.Count("tx:" + tx.Body.Type.String())
+		run.Count("admit-" + tx.Body.Type.String() + ":" + admit)
+		if admit == "ok" && !er.panicked {
+			run.Count("receipt-" + tx.Body.Type.String() + ":" + receiptStatus(bs, er.err))
+		}
+	}
 	run.Count("admit:" + admit)
 	run.Count("exec:" + exec)
 	if c.label != "" {
@@ -790,7 +937,12 @@ func (w *world) runCase(c *txCase, commit bool) (admit, exec string) {
 			Type: tx.Body.Type.String(), Payload: string(c.payload), Stage: stage, Panic: r.msg, Site: r.site}
 	}
 	if ar.panicked {
-		report(run, "admission of an untrusted transaction panics in "+ar.site+": "+ar.msg, "admission", ar, mk("admission", ar))
+		if ar.site == "pFdRsp" && w.fdMode == "none" {
+			// a node whose hub has no chain service: not an input a client or peer controls (the model's hypothesis FdReplyOk)
+			run.Count("untyped-reply-without-chain-service")
+		} else {
+			report(run, "admission of an untrusted transaction panics in "+ar.site+": "+ar.msg, "admission", ar, mk("admission", ar))
+		}
 	}
 	if er.panicked {
 		if admit == "ok" {
@@ -799,11 +951,35 @@ func (w *world) runCase(c *txCase, commit bool) (admit, exec string) {
 			run.Count("exec-panic-of-non-admitted-tx")
 		}
 	}
-	if commit && !er.panicked {
+	if commit && !er.panicked && er.err == nil {
 		w.commit(bs)
-		w.setup = append(w.setup, fmt.Sprintf("block %d signer %d -> %s amount %s: %s  [%s]", w.blockNo, c.who, c.rcpt, tx.Body.GetAmountBigInt(), c.payload, receiptOf(bs)))
+		w.setup = append(w.setup, fmt.Sprintf("block %d signer %d -> %s %s amount %s: %s  [%s]", w.blockNo, c.who, tx.Body.Type, printable(c.rcpt), tx.Body.GetAmountBigInt(), c.payload, receiptOf(bs)))
+		w.blockNo++
+	} else {
+		w.reload()
 	}
 	return
+}
+
+func printable(b []byte) string {
+	for _, c := range b {
+		if c < 32 || c > 126 {
+			return hex.EncodeToString(b)
+		}
+	}
+	return string(b)
+}
+
+// receiptStatus: what the property calls "a success or error receipt or is skipped".
+func receiptStatus(bs *state.BlockState, err error) string {
+	if err != nil {
+		return "skipped"
+	}
+	rs := bs.Receipts().Get()
+	if len(rs) == 0 {
+		return "none"
+	}
+	return rs[len(rs)-1].Status
 }
 
 var errSig = errors.New("signature")
@@ -833,22 +1009,11 @@ func (w *world) valCase(c *txCase) {
 		report(w.run, "Validate panics in "+r.site+": "+r.msg, "admission", r, replay{World: w.worldName(), Rcpt: string(c.rcpt),
 			Type: tx.Body.Type.String(), Payload: string(c.payload), Stage: "Validate", Panic: r.msg, Site: r.site})
 	}
-	// the rest of the pipeline has no model for non-governance types; still: it must not panic
-	// (FEEDELEGATION asks the chain service through the actor hub, which this harness does not run)
-	if tx.Body.Type != types.TxType_GOVERNANCE && tx.Body.Type != types.TxType_FEEDELEGATION && r.err == nil && !r.panicked {
-		mp := w.pool()
-		txi := types.NewTransaction(tx)
-		r1 := guard(func() error {
-			if err := mp.VerifC14Verify(txi); err != nil {
-				return err
-			}
-			return mp.VerifC14Validate(txi)
-		})
-		w.run.Eval("pool:"+op, r1.err == nil)
-		if r1.panicked {
-			w.run.Fail("pool admission of a non-governance transaction panics: "+r1.msg+" at "+r1.site, replay{World: w.worldName(),
-				Rcpt: hex.EncodeToString(c.rcpt), Type: tx.Body.Type.String(), Payload: string(c.payload), Stage: "admission", Panic: r1.msg, Site: r1.site})
-		}
+	// whatever passes Validate goes through the whole pipeline (pool admission + execution, compared with the model)
+	if tx.Body.Type != types.TxType_GOVERNANCE && r.err == nil && !r.panicked {
+		cc := *c
+		cc.label = "validated-envelope"
+		w.runCase(&cc, false)
 	}
 }
 
@@ -964,7 +1129,7 @@ func (g *gen) add(rcpt, payload string, amt *big.Int, label string) {
 func (g *gen) structured(thorough bool) {
 	kinds := kindSamples(g.rng, thorough)
 	pool := g.w.stringPool(g.rng)
-	for _, t := range g.w.templates() {
+	for _, t := range append(g.w.templates(), g.w.unknownCommandTemplates()...) {
 		g.add(t.rcpt, payloadOf(t.name, t.args), t.amt, "valid")
 		// each argument replaced by each JSON kind / by interesting strings
 		for i := range t.args {
@@ -1073,11 +1238,14 @@ func (g *gen) malformed(n int) {
 // ---------------------------------------------------------------- main
 
 func main() {
-	run := vh.Start("c14", "tx: governance transactions (every valid aergo.system/name/enterprise call; each argument replaced by every JSON kind and by "+
-		"boundary strings; arguments dropped/added/duplicated; call-object shapes; non-call payloads; nesting at the decoder limit; byte-level mutations) "+
-		"x sender states (unstaked, staked, voted, corrupt old vote; name owned/free; no admin, admin, short admin) x node configs, through the real "+
-		"mempool.verifyTx/validateTx and chain.executeTx under recover(). val: Validate alone over all tx types and field lengths. json/up/low: the model's "+
-		"JSON decoder and rune tables against encoding/json and unicode. non-trivial = admitted, or a panic; distinct by (op, answer)")
+	run := vh.Start("c14", "tx: transactions of every type. Governance: every valid aergo.system/name/enterprise call (command names taken from the code under test); each "+
+		"argument replaced by every JSON kind and by boundary strings; arguments dropped/added/duplicated; call-object shapes; non-call payloads; nesting at the decoder "+
+		"limit; byte-level mutations. Other types: NORMAL/TRANSFER/CALL/DEPLOY/REDEPLOY/MULTICALL/FEEDELEGATION x recipients (account, name, unknown name, special, "+
+		"contract, none) x payloads (stub-VM scripts, call JSON, junk) x amounts x gas limits x senders (rich, poor, name account), fee off and on, pool switches, "+
+		"chain-service replies. States: unstaked, staked, voted, corrupt old vote; name owned/free; no admin, admin; parameters changed by won votes (STAKINGMIN, GASPRICE, "+
+		"NAMEPRICE, BPCOUNT at their extremes). Through the real mempool.verifyTx/validateTx and chain.NewTxExecutor (chain-service and block-factory mode) under recover(). "+
+		"val: Validate alone over all tx types and field lengths. json/up/low: the model's JSON decoder and rune tables against encoding/json and unicode. "+
+		"non-trivial = admitted, or a panic; distinct by (op, answer)")
 	defer run.Finish()
 	rng := run.Rng
 	dir := filepath.Join(run.Out, "db")
@@ -1127,6 +1295,12 @@ func main() {
 	must(one(w, 1, sys, `{"Name":"v1stake"}`, coins(10000), true))
 	must(one(w, 0, nam, `{"Name":"v1createName","Args":["abcdefghijkl"]}`, coins(1), true))
 	must(one(w, 0, ent, `{"Name":"appendAdmin","Args":["`+a0+`"]}`, nil, true))
+	// a contract (stub VM: the payload is its code and its script), then every other transaction type
+	if a, e := w.runCase(&txCase{who: 0, payload: []byte(`{"ret":"deployed"}`), typ: types.TxType_DEPLOY, label: "scenario"}, true); a != "ok" || e != "done" {
+		panic("deploy failed: " + a + " " + e)
+	}
+	contractAddr := contract.CreateContractID(w.addrs[0], w.lastNonce(0))
+	w.runOther("1-other-types", contractAddr, true, thorough)
 	batch(w, "1-just-staked", []int{0}, run.Pick(50, 2000))
 	// a name account: signed by the owner's key, Account = the name
 	for _, p := range []string{`{"Name":"v1updateName","Args":["abcdefghijkl","` + types.EncodeAddress(w.addrs[1]) + `"]}`, `{"Name":"v1updateName","Args":["abcdefghijkl",5]}`, `{"Name":"v1stake"}`} {
@@ -1206,6 +1380,10 @@ func main() {
 		}
 	}
 	fieldCases(wp, rng, false)
+	wp.runOther("public-other-types", nil, false, false)
+
+	// ---- parameters changed by won votes; regressions of the round-3 crashes
+	daoScenarios(run, dir, thorough)
 }
 
 // fieldCases: every transaction type x lengths of account / recipient / amount / price / payload.
